@@ -190,14 +190,20 @@ def run_ws(ops):
     return " ".join(out)
 
 
-def rand_ws_prog(rng):
-    """writes, tells and SEEKS (backwards and forwards, into the middle of bytes), inside and outside bounded blocks"""
+def rand_ws_prog(rng, with_bytes=False):
+    """writes, tells and SEEKS (backwards and forwards, into the middle of bytes), inside and outside bounded blocks;
+    `with_bytes`: byte strings too (oracle only: the seekable-writer model has no byte-string operation)"""
     ops = []
     pos = 0          # an estimate of the bit position, to aim the seeks near written data
     in_block = False
     for _ in range(rng.randrange(2, 12)):
         c = rng.random()
-        if c < 0.25:
+        if with_bytes and c < 0.12:
+            nb = rng.randrange(0, 4)
+            bs = [rng.choice([255, 255, 0, rng.randrange(256)]) for _ in range(rng.choice([nb, nb, max(0, nb - 1)]))]
+            ops.append("y%d,%s" % (nb, ".".join(map(str, bs)) or "-"))
+            pos += 8 * nb
+        elif c < 0.25:
             k = rng.choice([1, 3, 8, 8, 13])
             ops.append("n%d,%d" % (k, rng.getrandbits(k)))
             pos += k
@@ -252,6 +258,12 @@ def violates_ws(ops):
             elif c == "u":
                 bits = [1 if ch == "1" else 0 for ch in bits_str_of_uint(int(a))]
                 w.write_uint(int(a))
+            elif c == "y":
+                k, v = a.split(",")
+                bs = [int(x) for x in v.split(".")] if v != "-" else []
+                bs = bs + [0] * (int(k) - len(bs))
+                bits = [(b >> (7 - j)) & 1 for b in bs for j in range(8)]
+                w.write_bytes(int(k), bytes(bs))
             elif c == "B":
                 w.bounded_block_begin(int(a))
                 block = (P, int(a))
@@ -785,8 +797,8 @@ class Prop(object):
 
     def search(self, ctx):
         rng = ctx.rng("search")
-        for _ in range(ctx.n(6000, 60000)):
-            prog = rand_ws_prog(rng)
+        for i in range(ctx.n(8000, 60000)):
+            prog = rand_ws_prog(rng, with_bytes=(i % 2 == 1))
             why = violates_ws(prog)
             if why:
                 return {"kind": "seek-writer", "ops": prog, "why": why}
